@@ -65,6 +65,11 @@ Definition claim_statement : Prop :=
     lookup (w_fs w1) p = None /\ w_old w1 = w_old w.
 
 (* ------------------------------------------------------------------ the end of the function *)
+(* NOTE: as stated here this is FALSE when the target is the cache file itself (nothing in the
+   premises excludes it; the mechanism keeps that file hidden, Core shows it): refuted in
+   SimA2Finish.v (Refute.finish_statement_false).  The statement that is proved and used
+   (SimA2Finish.finish_statement_cf / finish_ok_cf) has the additional premise
+   p <> w_cachefile w; the node lemma (SimA2Node.v) derives it from Core's claim_check. *)
 Definition finish_statement : Prop :=
   forall st T W w s p c f sa skw res subs bsubs pend w' r oo s' out o',
     Sim4c T W w s -> HInv w -> Ctx4 (p :: st) (Some p) pend w -> mem_path p W = true ->
